@@ -1,0 +1,31 @@
+//go:build verif
+
+package lossy
+
+// Verification hooks (build tag "verif" only; see /verif/DESIGN.md, property C06).
+// They let an external harness observe the encoder's own reconstruction and obtain
+// the decoder's reconstruction before in-loop deblocking. With the tag off the
+// two call sites compile to empty inlined functions (verif_hook_off.go).
+
+// VerifOnFrame, if set, receives copies of the encoder's reconstructed Y/U/V
+// planes (macroblock-padded) at the end of EncodeFrame.
+var VerifOnFrame func(y, u, v []byte, yStride, uvStride, mbW, mbH int)
+
+// VerifSkipLoopFilter makes DecodeFrame skip the in-loop deblocking filter.
+var VerifSkipLoopFilter bool
+
+func verifFrameDone(enc *VP8Encoder) {
+	if VerifOnFrame == nil {
+		return
+	}
+	y := append([]byte(nil), enc.yPlane...)
+	u := append([]byte(nil), enc.uPlane...)
+	v := append([]byte(nil), enc.vPlane...)
+	VerifOnFrame(y, u, v, enc.yStride, enc.uvStride, enc.mbW, enc.mbH)
+}
+
+func verifAfterHeaders(dec *Decoder) {
+	if VerifSkipLoopFilter {
+		dec.filterType = 0
+	}
+}
